@@ -180,7 +180,7 @@ func cmdGen(argv []string) {
 	chans := []int{0, 1, 2, 3, 4, 5, 6, 7, 8, 9, 10, 11, 12, 13, 14, 15, 16, 17, 127, 128, 255}
 	few := []int{0, 9, 15, 16, 255}
 	pb := []int{0, 1, 2, 3, 4, 5, 63, 64, 96, 97, 98, 99, 100, 101, 126, 127, 128, 255} // parameter-number bytes
-	vb := []int{0, 1, 2, 12, 24, 63, 64, 100, 126, 127, 128, 200, 255}                   // value bytes
+	vb := []int{0, 1, 2, 12, 24, 63, 64, 100, 126, 127, 128, 200, 255}                  // value bytes
 	vpairs := [][2]int{{0, 0}, {2, 0}, {0, 2}, {64, 0}, {127, 127}, {128, 255}, {24, 100}, {255, 1}}
 
 	// constants, note helpers: complete
@@ -214,6 +214,16 @@ func cmdGen(argv []string) {
 		seq("midi.SilenceChannel", c)
 	}
 
+	// ResetChannel / gm helpers
+	for _, c := range chans {
+		for _, b := range vb {
+			for _, p := range vb {
+				seq("midi.ResetChannel", c, b, p)
+			}
+			seq("gm.Reset", c, b)
+			seq("gm.GMProgram", c, b)
+		}
+	}
 	// parameter helpers with explicit parameter numbers
 	p5 := []string{"rpn.RPN", "nrpn.NRPN"}
 	p3 := []string{"rpn.Increment", "rpn.Decrement", "nrpn.Increment", "nrpn.Decrement"}
@@ -278,25 +288,16 @@ func cmdGen(argv []string) {
 			}
 		}
 	}
-	// ResetChannel / gm helpers
-	for _, c := range chans {
-		for _, b := range vb {
-			for _, p := range vb {
-				seq("midi.ResetChannel", c, b, p)
-			}
-			seq("gm.Reset", c, b)
-			seq("gm.GMProgram", c, b)
-		}
-	}
+	// ResetChannel / gm helpers, denser
 	if *full {
 		for c := 0; c < 16; c++ {
 			for b := 0; b < 128; b++ {
-				for p := 0; p < 128; p += 1 + (b+c)%3 {
+				for p := (b + c) % 5; p < 128; p += 5 {
 					seq("midi.ResetChannel", c, b, p)
 				}
 			}
 		}
-		for _, c := range chansAll {
+		for _, c := range chans {
 			for p := 0; p < 256; p++ {
 				seq("gm.Reset", c, p)
 				seq("gm.GMProgram", c, p)
